@@ -21,19 +21,21 @@ func main() {
 	for _, s := range asyncCorpus() {
 		wa.Add(asyncCase(s))
 	}
-	for i := 0; i < *n; i++ {
+	for i := 0; i < *n && hangs < 2; i++ {
 		wa.Add(asyncCase(genAsync(r)))
 	}
+	hangs = 0
 	for _, s := range syncCorpus() {
 		ws.Add(syncCase(s))
 	}
-	for i := 0; i < *n; i++ {
+	for i := 0; i < *n && hangs < 2; i++ {
 		ws.Add(syncCase(genSync(r)))
 	}
+	hangs = 0
 	for _, s := range consumerCorpus() {
 		wc.Add(consumerCase(s))
 	}
-	for i := 0; i < *n; i++ {
+	for i := 0; i < *n && hangs < 2; i++ {
 		wc.Add(consumerCase(genConsumer(r)))
 	}
 	wa.Close()
